@@ -58,7 +58,7 @@ def first_diff(schema: dict, a: dict, b: dict, path: str = "") -> tuple[str, str
 
 def case_summary(c: dict) -> dict:
     return {"id": c["id"], "mode": c["mode"], "sid": c["sid"],
-            "wire_bytes": sum(e["n"] for e in c["wev"] if e["op"] == "w") or len(c["input"]),
+            "wire_bytes": sum(e["n"] for e in c["wev"] if e["op"] == "w") or sum(n for _, n in c["input"]),
             "write_calls": len(c["wev"]), "read_calls": len(c["rev"]),
             "wout": c["wout"], "rout": c["rout"]}
 
@@ -70,7 +70,7 @@ def make_canary(case: dict, kind: str) -> dict | None:
     if kind == "chunk":
         for e in c["wev"]:
             if e["op"] == "w" and e["n"] > 0:
-                e["d"][0] ^= 0x01
+                e["d"][0][0] ^= 0x01
                 return c
     elif kind == "readsize":
         for e in c["rev"]:
@@ -294,7 +294,7 @@ def check_C01(chk: Check, replay: str | None) -> None:
     thorough = chk.tier == "thorough"
     model_check_codec(chk, "MC_Codec_thorough.cfg" if thorough else "MC_Codec_quick.cfg")
     replay_universe(chk, emit_universe(chk, "MC_Codec_emit2.cfg" if thorough else "MC_Codec_emit.cfg"), {"C01"})
-    validate_wr(chk, 30 if thorough else 3, {"C01"})
+    validate_wr(chk, 32 if thorough else 4, {"C01"})
 
 
 def check_C02(chk: Check, replay: str | None) -> None:
@@ -309,4 +309,135 @@ def check_C02(chk: Check, replay: str | None) -> None:
     thorough = chk.tier == "thorough"
     model_check_codec(chk, "MC_Codec_thorough.cfg" if thorough else "MC_Codec_quick.cfg")
     replay_universe(chk, emit_universe(chk, "MC_Codec_emit2.cfg" if thorough else "MC_Codec_emit.cfg"), {"C02"})
-    validate_wr(chk, 30 if thorough else 3, {"C02"})
+    validate_wr(chk, 32 if thorough else 4, {"C02"})
+
+
+# --------------------------------------------------------------------------- wire-first
+C03_CLAUSES = {"decoder_raised", "inexact_consumption", "decoded_value_differs",
+               "read_past_message_end", "short_read_inside_message", "negative_read_size",
+               "source_used_other_than_read", "source_event_unknown"}
+C05_CLAUSES = {"write_diverges_from_wire_format", "encoder_raised", "encoder_output_incomplete",
+               "sink_used_other_than_write", "sink_event_unknown"}
+
+
+def encode_with_spec(chk: Check, in_paths: list[str], jobs: int = 16) -> dict[str, list[dict]]:
+    """Pass 1: CodecEncode on every input shard -> {path: [{id, wt, b}]}."""
+    import concurrent.futures
+
+    def one(p):
+        return tlc.run_tlc("CodecEncode", env={"KIO_TRACE_FILE": p}, workers=1, timeout=3000)
+
+    with concurrent.futures.ThreadPoolExecutor(max_workers=jobs) as ex:
+        results = list(ex.map(one, in_paths))
+    out = {}
+    states = gen = 0
+    for p, res in zip(in_paths, results):
+        if not tlc.tlc_ok(res):
+            raise Machinery(f"CodecEncode failed on {p}:\n{res['out'][-2500:]}")
+        out[p] = tlc.parse_json_lines(res["out"])
+        states += res["states"]
+        gen += res["generated"]
+    chk.add_tlc("CodecEncode(pass1)", {"states": states, "generated": gen,
+                                       "wall": max(r["wall"] for r in results)})
+    return out
+
+
+def validate_rw(chk: Check, per_class: int, props: set[str], ms_timestamps: bool = True,
+                jobs: int = 16) -> None:
+    classes = project.all_entity_classes()
+    n = len(classes)
+    K = 16
+    slices = [(i * n // K, (i + 1) * n // K) for i in range(K)]
+    in_args = [(os.path.join(chk.scratch, f"rwin{i}.json"), slices[i], per_class, chk.seed + 3,
+                ms_timestamps) for i in range(K)]
+    with mp.Pool(K) as pool:
+        ins = pool.map(codec_driver.gen_rw_inputs, in_args)
+    encoded = encode_with_spec(chk, [i["path"] for i in ins], jobs)
+    for p, encs in encoded.items():
+        bad = [e["id"] for e in encs if not e["wt"]]
+        if bad:
+            raise Machinery(f"sampler produced values outside the wire domain: {bad[:5]}")
+    out_args = [(ins[i]["path"], encoded[ins[i]["path"]],
+                 os.path.join(chk.scratch, f"rw{i}.json"), chk.seed + 5) for i in range(K)]
+    with mp.Pool(K) as pool:
+        infos = pool.map(codec_driver.gen_rw_shard, out_args)
+    # canary: corrupt the recorded decoded value of one passing case
+    with open(infos[0]["path"]) as f:
+        shard0 = json.load(f)
+    donor = next((c for c in shard0["cases"] if c["rout"] == "ok" and c["wout"] == "ok"
+                  and c["rev"] and c["wev"]), None)
+    canaries = []
+    if donor:
+        for kind in ("chunk", "readsize"):
+            cc = make_canary(donor, kind)
+            if cc:
+                canaries.append(cc)
+        cc = copy.deepcopy(donor)
+        cc["id"] = "canary_input"
+        if cc["input"]:
+            cc["input"][-1][0] ^= 0x80
+            canaries.append(cc)
+        shard0["cases"].extend(canaries)
+        codec_driver.write_shard(infos[0]["path"], shard0["schemas"], shard0["cases"])
+    res = tlc.validate_shards("CodecTrace", [i["path"] for i in infos], jobs=jobs)
+    verdicts = {v["id"]: set(v["fails"]) for v in res["verdicts"]}
+    ncases = sum(i["cases"] for i in infos)
+    if len(verdicts) != ncases + len(canaries):
+        raise Machinery(f"{len(verdicts)} verdicts for {ncases + len(canaries)} cases")
+    for cc in canaries:
+        if not verdicts.get(cc["id"]):
+            raise Machinery(f"canary {cc['id']} was not rejected by CodecTrace")
+    chk.add_tlc("CodecTrace(rw)", res, traces=ncases)
+    chk.notes.append(f"{n} classes x {per_class} wire-level values/variants encoded by the specification, "
+                     f"decoded and re-encoded by kio; {len(canaries)} canaries rejected")
+    wanted = (C03_CLAUSES if "C03" in props else set()) | (C05_CLAUSES if "C05" in props else set())
+    for info in infos:
+        with open(info["path"]) as fh:
+            shard = json.load(fh)
+        for c in shard["cases"]:
+            if c["id"].startswith("canary_"):
+                continue
+            f = verdicts[c["id"]]
+            if f & HARNESS_CLAUSES:
+                raise Machinery(f"case {c['id']}: {sorted(f)}")
+            chk.count()
+            chk.distinct((c["sid"], json.dumps(c["value"], sort_keys=True)[:2000], json.dumps(c["var"])))
+            if len(chk.cov["samples"]) < 2 and c["var"]["unk"]:
+                chk.sample({"case": case_summary(c), "variant": c["var"], "value": c["value"],
+                            "input_runs": c["input"][:100]})
+            f = f & wanted
+            if not f:
+                continue
+            schema = shard["schemas"][c["sid"]]
+            where, kt = first_diff(schema, c["value"], c["rval"]) if c["rout"] == "ok" else ("-", "-")
+            canon = c["var"]["expl"] == 0 and not c["var"]["unk"]
+            key = "+".join(sorted(f))[:80] + ":" + kt + ("" if canon else ":variant")
+            what = (f"{c['sid']} case {c['id']} var={json.dumps(c['var'])[:120]}: {sorted(f)}; first differing "
+                    f"field {where} ({kt}); rout={c['rout']} {c.get('rerr', '')} wout={c['wout']}")
+            chk.violation(key, what, {"kind": "rw", "sid": c["sid"], "value": c["value"], "var": c["var"]})
+
+
+def check_C03(chk: Check, replay: str | None) -> None:
+    chk.assumptions += ASSUMPTIONS
+    chk.cov["rule"] = ("cases = (class, wire-level value, variant) with the bytes produced by the "
+                       "specification (explicit defaults, unknown tagged fields at every level), decoded by "
+                       "kio; distinct = distinct (class, value, variant); all non-trivial")
+    if replay:
+        raise Machinery("replay: re-run the check; rw cases are regenerated from (sid, value, var)")
+    thorough = chk.tier == "thorough"
+    model_check_codec(chk, "MC_Codec_thorough.cfg" if thorough else "MC_Codec_quick.cfg")
+    replay_universe(chk, emit_universe(chk, "MC_Codec_emit2.cfg" if thorough else "MC_Codec_emit.cfg"), {"C03"})
+    validate_rw(chk, 24 if thorough else 4, {"C03"})
+
+
+def check_C05(chk: Check, replay: str | None) -> None:
+    chk.assumptions += ASSUMPTIONS
+    chk.cov["rule"] = ("cases = (class, wire-level value) encoded canonically by the specification, decoded "
+                       "and re-encoded by kio; re-encoded bytes must equal the canonical encoding; "
+                       "distinct = distinct (class, value, variant)")
+    if replay:
+        raise Machinery("replay: re-run the check; rw cases are regenerated from (sid, value, var)")
+    thorough = chk.tier == "thorough"
+    model_check_codec(chk, "MC_Codec_thorough.cfg" if thorough else "MC_Codec_quick.cfg")
+    replay_universe(chk, emit_universe(chk, "MC_Codec_emit2.cfg" if thorough else "MC_Codec_emit.cfg"), {"C05"})
+    validate_rw(chk, 24 if thorough else 4, {"C05"})
